@@ -48,6 +48,7 @@ type PathResult struct {
 	End       string // "ok" or pathEnd.kind or "PANIC"
 	Msg       string
 	Violation *Violation
+	Witness   *Violation
 	Reached   []string
 	Decisions int
 	Steps     int64
